@@ -12,12 +12,25 @@ unwrap_resolved = Fn(FM, "unwrap_resolved", impl=RIMPL, slot="asm", ret="res", k
     requires=[C("is_resolved", "self is Resolved", ["C03"])],
     ensures=[C("the_encoding", "*res == self->Resolved_0", ["C02"])])
 
-rim = Fn(FIN, "resolve_instruction_matches", slot="resolver", mode="stub", ret="res", key="resolve_instruction_matches",
-    ensures=[C("err_is_loud", "res is Err ==> final(report).msgs() > old(report).msgs()"),
-             C("ok_is_clean", "res is Ok ==> final(report).msgs() == old(report).msgs() && final(report).errors() == old(report).errors()"),
-             C("parents_balanced", "final(report).parents() == old(report).parents()"),
-             C("same_matches", "final(matches)@.len() == old(matches)@.len()"),
-             C("resolved_are_sized", "res is Ok ==> forall|k: int| 0 <= k < final(matches)@.len() && match_resolved(#[trigger] final(matches)@[k]) ==> (final(matches)@[k].encoding->Resolved_0).size is Some")])
+FE = "src/expr/expression.rs"
+expect_sized = Fn(FE, "expect_error_or_sized_bigint", impl="Value", slot="expr", mode="stub", ret="res", key="Value::expect_error_or_sized_bigint",
+    ensures=ur.LOUD + [C("shape", "res is Ok ==> res->Ok_0 is Unknown || res->Ok_0 is FailedConstraint || (res->Ok_0 is Integer && res->Ok_0->Integer_0.size is Some)")])
+rim_match = Fn(FIN, "resolve_instruction_match", slot="resolver", mode="stub", ret="res", key="resolve_instruction_match", ensures=ur.LOUD)
+rim = Fn(FIN, "resolve_instruction_matches", slot="resolver", ret="res", key="resolve_instruction_matches", props=["C02", "C03"],
+    requires=[C("ruledefs_defined", "forall|k: int| 0 <= k < old(matches)@.len() ==> (#[trigger] old(matches)@[k]).ruledef_ref.0 < defs.ruledefs.defs@.len() && defs.ruledefs.defs@[old(matches)@[k].ruledef_ref.0 as int] is Some", ["C03"])],
+    ensures=[C("err_is_loud", "res is Err ==> final(report).msgs() > old(report).msgs()", ["C03"]),
+             C("ok_is_clean", "res is Ok ==> final(report).msgs() == old(report).msgs() && final(report).errors() == old(report).errors()", ["C03"]),
+             C("parents_balanced", "final(report).parents() == old(report).parents()", ["C03"]),
+             C("same_matches", "final(matches)@.len() == old(matches)@.len()", ["C02"]),
+             C("resolved_are_sized", "res is Ok ==> forall|k: int| 0 <= k < final(matches)@.len() && match_resolved(#[trigger] final(matches)@[k]) ==> (final(matches)@[k].encoding->Resolved_0).size is Some", ["C02"]),
+             C("only_the_encodings_change", "forall|k: int| 0 <= k < final(matches)@.len() ==> (#[trigger] final(matches)@[k]).ruledef_ref == old(matches)@[k].ruledef_ref && final(matches)@[k].rule_ref == old(matches)@[k].rule_ref && final(matches)@[k].args == old(matches)@[k].args", ["C02"])],
+    loops={1: Loop(invariant=[
+        C("kept", "report.msgs() == old(report).msgs() && report.errors() == old(report).errors() && report.parents() == old(report).parents() && matches@.len() == old(matches)@.len()"),
+        C("defined", "forall|k: int| 0 <= k < matches@.len() ==> (#[trigger] matches@[k]).ruledef_ref == old(matches)@[k].ruledef_ref && matches@[k].rule_ref == old(matches)@[k].rule_ref && matches@[k].args == old(matches)@[k].args"),
+        C("ruledefs_defined", "forall|k: int| 0 <= k < old(matches)@.len() ==> (#[trigger] old(matches)@[k]).ruledef_ref.0 < defs.ruledefs.defs@.len() && defs.ruledefs.defs@[old(matches)@[k].ruledef_ref.0 as int] is Some"),
+        C("sized_so_far", "forall|k: int| 0 <= k < index && match_resolved(#[trigger] matches@[k]) ==> (matches@[k].encoding->Resolved_0).size is Some"),
+    ])},
+)
 note = Fn(FIN, "build_recursive_candidate_note", slot="resolver", mode="stub", ret="res", key="build_recursive_candidate_note", ensures=[])
 
 RF = "src/diagn/report.rs"
@@ -43,6 +56,7 @@ def _shared():
     return out
 # the clauses resolve_instruction relies on (same objects as the stub in U-resolver) + the property-level ones
 resolve_encoding = Fn(FIN, "resolve_encoding", slot="resolver", ret="res", key="resolve_encoding", props=["C02", "C03"],
+    requires=[C("matches_refer_to_defined_ruledefs", "forall|k: int| 0 <= k < old(matches)@.len() ==> (#[trigger] old(matches)@[k]).ruledef_ref.0 < defs.ruledefs.defs@.len() && defs.ruledefs.defs@[old(matches)@[k].ruledef_ref.0 as int] is Some", ["C03"])],
     ensures=_shared() + [
         C("only_resolved_matches_of_the_smallest_size", "res is Ok && res->Ok_0 is Some ==> forall|i: int| 0 <= i < %s@.len() ==> ({ let e = #[trigger] %s@[i];"
           " e.0 < final(matches)@.len() && match_resolved(final(matches)@[e.0 as int]) && *e.1 == final(matches)@[e.0 as int].encoding->Resolved_0"
@@ -72,7 +86,7 @@ UNIT = Unit(
     items=ur.COMMON + [
         Type(FM, "struct", "InstructionMatch", slot="asm"), Type(FM, "enum", "InstructionMatchResolution", slot="asm"),
         Type(FM, "struct", "InstructionArgument", slot="asm"), Type(FM, "enum", "InstructionArgumentKind", slot="asm"),
-        is_resolved, unwrap_resolved, rim, note, push_cap, pop_cap, push_multiple, fuse, ur.can_guess.as_stub("resolver"),
+        is_resolved, unwrap_resolved, expect_sized, rim_match, rim, note, push_cap, pop_cap, push_multiple, fuse, ur.can_guess.as_stub("resolver"),
         resolve_encoding,
     ],
     serves=["C02", "C03"],
